@@ -60,5 +60,19 @@ CLAIMS['C26'] = {
   'note': _TB + 'Harness structure: up to 2 locks per file number on 3 numbers (10 shapes); lock sets use a by-value set stand-in; LOCK/ACCESS clause matrix of OPEN only in its default row. Two defects found and fixed (705e918b).',
 }
 
+CLAIMS['C39'] = {
+  'text': 'Proof: Randomiser._cycle is the fixed linear congruential step with the state invariant 0 <= seed < 2^24; full period 2^24 is a lemma chain over that contract '
+          '(affine-map composition lemma, T^(2^24) = identity and T^(2^23) without fixed point for all states, constants read from the class); '
+          'rnd_ returns the single whose value is exactly seed/2^24 in [0,1) for every state (the 32-step long division by 2^24 is executed with state merging and decided by the bit-vector back end), '
+          'RND(0) keeps the state, RND(x<0) reseeds with the mantissa independent of the old state, Integer/Double arguments are converted once; reseed depends only on the argument bytes and seed mod 256; clear restores the fixed seed.',
+  'note': _TB + 'The squaring schedule for the period lemma is carried out by the contract in exact integer arithmetic, each step justified by the proved composition lemma. RND(x<0) is verified modularly (division replaced by a recording stub; the division itself is proved for every state in the other branches).',
+}
+CLAIMS['C44'] = {
+  'text': 'Proof for Clock.time_ / Clock.date_: for every separator structure in a stated list and arbitrary field values (int() of each field abstracted to any integer or ValueError) the outcome is either Illegal function call with the clock unchanged, '
+          'exactly for invalid fields, or the offset becomes old + (new - now) with new carrying exactly the fields set; no other exception escapes. '
+          'ENVIRON/ENVIRON$ and the string formatting of TIME$/DATE$ are covered only by bounded end-to-end tasks (literal strings through a real Session), reported separately and never counted as proved.',
+  'note': _TB + 'datetime is replaced by an abstract calendar (constructor range checks as in CPython, symbolic date arithmetic); separator structures are enumerated (9 + 8 shapes). Two defects found and fixed (b16e0aff).',
+}
+
 NOT_APPLICABLE = {
 }
